@@ -758,12 +758,12 @@ def free_port_base(rng):
 
 def corr_rt(ctx, c):
     rng = ctx.rng
-    hists = list(FIXED_HISTORIES) + [gen_history(rng, rng.choice([8, 14, 22])) for _ in range(ctx.n(400, 3000))]
+    hists = list(FIXED_HISTORIES) + [gen_history(rng, rng.choice([8, 14, 22])) for _ in range(ctx.n(300, 3000))]
     corpus = os.path.join(fw.VERIF, 'corpus', 'C18_histories.json')
     if os.path.exists(corpus):
         hists = json.load(open(corpus)) + hists
     dcases = [{'hex': d.hex(), 'src': ['127.0.0.1', 9001], 'kind': k} for d, k in FIXED_DGRAMS]
-    dcases += [gen_dgram_case(rng) for _ in range(ctx.n(500, 6000))]
+    dcases += [gen_dgram_case(rng) for _ in range(ctx.n(420, 6000))]
     corpus = os.path.join(fw.VERIF, 'corpus', 'C18_dgrams.json')
     if os.path.exists(corpus):
         dcases = json.load(open(corpus)) + dcases
@@ -882,10 +882,12 @@ def corr_rt(ctx, c):
 def correspond(ctx):
     c = Corr()
     n = 0
-    _, _, k = corr_pairs(ctx, c)
-    n += k
-    n += corr_registry(ctx, c)
-    n += corr_rt(ctx, c)
+    # each part on its own: a runner that dies (e.g. the library cannot even initialise) must not hide the others
+    for part in (lambda: corr_pairs(ctx, c)[2], lambda: corr_registry(ctx, c), lambda: corr_rt(ctx, c)):
+        try:
+            n += part()
+        except fw.ImplError as e:
+            c.failures.append(Failure('correspondence', 'implementation runner failed: %s' % str(e)[-1500:], replay={'error': str(e)[-3000:]}))
     c.evaluations = n
     c.rule = ('(i) pattern/address pairs against responders._match_osc_address_pattern (T/F/re.error), non-trivial = a match through a '
               'metacharacter or a non-match sharing a prefix; (ii) responder histories (create enable disable one_shot free set_func '
